@@ -998,7 +998,7 @@ func init() {
 	core.Register(&core.Check{
 		ID:    "C07",
 		Level: "exploration",
-		Rule:  "totality in isolated workers: (a) every string of length <=4 (thorough <=5) over 14 grammar characters through parse.Value and ValueWithConfig under all 32 configs; (b) every string of length <=5 (thorough <=6) over {$ { } : + ? a .} stored as a setting under VarExp (6 option sets incl. ResolveEnv/ResolveNOOP, a resolver answering every name with the empty string, a resolver answering with objects and lists) and read through String, Int, Child, Unpack into map and struct, FlattenedKeys, Has, CountField, Remove; (c) every byte string of length <=3 (thorough <=4) over 16 significant bytes per format plus every prefix, single-byte deletion and single-byte substitution of three seed documents per format through the YAML/JSON/HJSON loaders and Unpack/FlattenedKeys; (d) 18 getters/setters/Has/Remove/Child/CountField/Merge/NewFrom x 24 names (empty, dotted, double dots, negative, huge, hex, bracketed) x 12 indices (MinInt64 .. MaxInt64) x 5 option sets x 5 base configs, with the list-length bound checked on the private state; (f) for every string of length <=4 (thorough <=5) of (b) the lexer goroutine and the parser run under the cooperative scheduler with goroutine start and channel send/receive/range/close/select as scheduling points - all interleavings, no bound: same parse outcome on every schedule, both terminate, no deadlock or leaked goroutine; (e) ~88 unpack/merge targets incl. pre-filled values held by value in interfaces or behind pointers inside collections, unsupported kinds (chan, func, complex, uintptr, unsafe.Pointer, non-string map keys, zero-length arrays, nil and non-nil *interface{}, multiple pointers, non-pointer, nil, interfaces with methods, embedded pointers, recursive types, odd Unpack signatures, bad tags) x 9 configs; (g) 16 cyclic or diamond-shaped reference structures (self, rings of 2 and 3, through lists, objects, path walks, defaults and alternates) x 16 typed targets (string, slices, arrays, maps of slices, interface{}, *Config, two slice fields) x 3 option sets, followed by every getter; (h) every ordered pair and triple of entries over 6 mutually overlapping keys (a, a.0, a.1, a.b, a.0.b, a.1.0) x 8 values (scalar, null, lists shorter and longer, objects, nested lists) given through struct field order to NewFrom/Merge with and without PathSep. Oracle: every call returns, no panic, no worker death (stack overflow, OOM under a 2 GiB address-space limit, hang > 10 s), every goroutine started by the library has finished, no list part longer than MaxIdx+1; non-trivial = every executed case",
+		Rule:  "totality in isolated workers: (a) every string of length <=4 (thorough <=5) over 14 grammar characters through parse.Value and ValueWithConfig under all 32 configs; (b) every string of length <=5 (thorough <=6) over {$ { } : + ? a .} stored as a setting under VarExp (6 option sets incl. ResolveEnv/ResolveNOOP, a resolver answering every name with the empty string, a resolver answering with objects and lists) and read through String, Int, Child, Unpack into map and struct, FlattenedKeys, Has, CountField, Remove; (c) every byte string of length <=3 (thorough <=4) over 16 significant bytes per format plus every prefix, single-byte deletion and single-byte substitution of three seed documents per format through the YAML/JSON/HJSON loaders and Unpack/FlattenedKeys; (d) 18 getters/setters/Has/Remove/Child/CountField/Merge/NewFrom x 24 names (empty, dotted, double dots, negative, huge, hex, bracketed) x 12 indices (MinInt64 .. MaxInt64) x 5 option sets x 5 base configs, with the list-length bound checked on the private state; (f) for every string of length <=4 (thorough <=5) of (b) the lexer goroutine and the parser run under the cooperative scheduler with goroutine start and channel send/receive/range/close/select as scheduling points - all interleavings, no bound: same parse outcome on every schedule, both terminate, no deadlock or leaked goroutine; (e) ~88 unpack/merge targets incl. pre-filled values held by value in interfaces or behind pointers inside collections, unsupported kinds (chan, func, complex, uintptr, unsafe.Pointer, non-string map keys, zero-length arrays, nil and non-nil *interface{}, multiple pointers, non-pointer, nil, interfaces with methods, embedded pointers, recursive types, odd Unpack signatures, bad tags) x 9 configs; (g) 16 cyclic or diamond-shaped reference structures (self, rings of 2 and 3, through lists, objects, path walks, defaults and alternates) x 16 typed targets (string, slices, arrays, maps of slices, interface{}, *Config, two slice fields) x 3 option sets, followed by every getter; (h) every ordered pair and triple of entries over 6 mutually overlapping keys (a, a.0, a.1, a.b, a.0.b, a.1.0) x 8 values (scalar, null, lists shorter and longer, objects, nested lists) given through struct field order to NewFrom/Merge with and without PathSep. Oracle: every call returns, no panic, no worker death (stack overflow, OOM under a 2 GiB address-space limit, hang > 10 s), every goroutine started by the library has finished, no list part longer than MaxIdx+1; non-trivial = every executed case; plus every sequence of up to 3 (thorough: 4) SetChild calls among three configs at three addresses followed by every read entry point on every config; plus reference chains that run into a cycle further down (tails 1-3, cycles 1-3) x the target types",
 		Assumptions: []string{
 			"short strings over format-specific alphabets and single-edit neighbours of seed documents, not long adversarial inputs",
 			"goroutine accounting through the `go` hook of the overlay (start/finish counters)",
